@@ -23,6 +23,18 @@ def directed():
               [rset], [{"op": "rollout_set", "name": b"web", "pct": 100, "allow": []}], [{"op": "rollout_stop", "name": b"web"}],
               [rdep([b"td:8080"]), rset], [dep([b"tb:80"])], [{"op": "remove", "name": b"web"}, dep([b"tb:80"])]]
     out = []
+    # a snapshot taken while one target of the service is failing its probes (out of rotation): the file still lists it, the
+    # restored proxy probes it and uses it again once it recovers
+    sick = dict(dep([b"ta:80", b"tb:80"]), outage_after=b"ta:80")
+    out.append(([sick, pause, {"op": "resume", "name": b"web"}, {"op": "resume", "name": b"web"}, {"op": "resume", "name": b"web"},
+                 {"op": "resume", "name": b"web"}, {"op": "resume", "name": b"web"}], 3))
+    # a TLS root-path service with a static certificate on a WILDCARD host and a sub-path service on the same host (it inherits
+    # the TLS flags): the saved state must restore
+    wdep = lambda name, prefixes, tls, cert, t: {"op": "deploy", "name": name, "hosts": [b"*.example.com"], "prefixes": prefixes, "tls": tls,
+                                                 "tls_redirect": False, "strip": True, "cert": cert, "pages": "none", "topts": 0,
+                                                 "targets": [{"name": t, "healthy": True}]}
+    out.append(([wdep(b"web", [], True, "good", b"ta:80"), wdep(b"api", [b"/api"], False, "none", b"tb:80"),
+                 {"op": "stop", "name": b"api", "msg": b"down"}, {"op": "resume", "name": b"api"}], 2))
     for st in states:
         for fo in follow:
             h = [dep([b"ta:80", b"tb:80"])] + st + fo
@@ -32,8 +44,8 @@ def directed():
 
 def run(tier, seed):
     fx = directed()
-    if tier == "quick":      # a third of the directed pairs per quick run, chosen by the seed; all of them in the thorough tier
-        fx = [p for i, p in enumerate(fx) if i % 3 == seed % 3]
+    if tier == "quick":      # the two special pairs and a third of the state x follow-up pairs per quick run, chosen by the seed; all in the thorough tier
+        fx = fx[:2] + [p for i, p in enumerate(fx[2:]) if i % 3 == seed % 3]
     return run_property(
         "C11", tier, seed, ["C11.v", "M4link.v"], ["props/C11.vo", "props/M4link.vo"],
         profile={"deploy": 8, "deploy_fail": 2, "remove": 1, "restart": 1, "flap": 3, "rollout_deploy": 5, "rollout_set": 6,
